@@ -116,6 +116,30 @@ func init() {
 		}
 		return e.newErr("invalid identifier")
 	})
+	// Hop syntax, opt-in abstraction (verif.AbstractHopSyntax): IsValidChannelID / IsValidClientID on symbolic strings
+	// become uninterpreted predicates that imply their format regular expression (a necessary condition; the numeric
+	// range of the sequence is left to concretisation against the real functions).
+	hopPred := func(uf, re string) intrinsic {
+		return func(e *Engine, fn *ssa.Function, a []Value) Value {
+			s := toSeq(a[0])
+			if !e.abstractHops || s.IsConst() {
+				return e.callBody(fn, a)
+			}
+			ok := UF(uf, BoolS, s)
+			t, err := regexMatchTerm(re, s)
+			if err != nil {
+				panic(inconclusive{"regex: " + err.Error()})
+			}
+			e.addAxiom(fmt.Sprintf("%s:%d", uf, s.id), Implies(ok, t))
+			return ok
+		}
+	}
+	reg(ibcgo+"modules/core/04-channel/types.IsValidChannelID", hopPred("chanid_ok", `^channel-[0-9]{1,20}$`))
+	reg(ibcgo+"modules/core/02-client/types.IsValidClientID", hopPred("clientid_ok", `^\w+([\w-]+\w)?-[0-9]{1,20}$`))
+	reg(vp+"AbstractHopSyntax", func(e *Engine, fn *ssa.Function, a []Value) Value {
+		e.abstractHops = a[0].(*T).IsTrue()
+		return nil
+	})
 	reg(vp+"LightDecimals", func(e *Engine, fn *ssa.Function, a []Value) Value {
 		e.lightDec = a[0].(*T).IsTrue()
 		return nil
